@@ -242,3 +242,46 @@ func checkSentinelReachesCaller(c *Ctx, r *Report, sentinel string) {
 		r.OK("no exported function relays "+sentinel, g.Pos(), "the sentinel is returned directly by exported functions only")
 	}
 }
+
+// checkSessionAPIOwnMethods: every context-taking method callers can invoke on a *V2Session is
+// declared on V2Session itself (and hence sends through the session's SendCommand: wrapped,
+// signed, encrypted, numbered). A method promoted from an embedded connection type would run
+// that type's implementation — for the session-less connection: the same command outside the
+// session, with session ID 0 and no AuthCode — and still return the right answer.
+func checkSessionAPIOwnMethods(c *Ctx, r *Report) {
+	r.Rule("session-api-own-methods", "no context-taking method of *V2Session is promoted from an embedded type: everything a caller can send through a session goes through the session's own implementation", 5)
+	v2s := c.Named("", "V2Session")
+	if v2s == nil {
+		r.Lost("bmc.V2Session")
+		return
+	}
+	ms := types.NewMethodSet(types.NewPointer(v2s))
+	for i := 0; i < ms.Len(); i++ {
+		sel := ms.At(i)
+		fn, ok := sel.Obj().(*types.Func)
+		if !ok {
+			continue
+		}
+		sig, ok := fn.Type().(*types.Signature)
+		if !ok {
+			continue
+		}
+		hasCtx := false
+		for k := 0; k < sig.Params().Len(); k++ {
+			if isContextType(sig.Params().At(k).Type()) {
+				hasCtx = true
+			}
+		}
+		if !hasCtx {
+			continue
+		}
+		promoted := len(sel.Index()) > 1
+		via := ""
+		if promoted {
+			if rv := sig.Recv(); rv != nil {
+				via = types.TypeString(rv.Type(), func(p *types.Package) string { return p.Name() })
+			}
+		}
+		r.Check(!promoted, "V2Session."+fn.Name(), fn.Pos(), "declared on V2Session", "V2Session."+fn.Name()+" is promoted from "+via+": called on a session it runs the embedded type's implementation — the command leaves outside the session (session ID 0, unauthenticated, unencrypted) and the caller still gets an answer")
+	}
+}
